@@ -5,6 +5,7 @@ from __future__ import annotations
 import ast
 
 from .common import *  # noqa: F401,F403
+from .common import bind_defaults
 from .common import (
     SVC, MOD, AbsInt, AnalysisError, AnchorError, Cls, Ctx, Facts, Obj, Registry, UNKNOWN, U, Unit, call_name, q, walk_own, where,
 )  # fmt: skip
@@ -98,6 +99,35 @@ def c01_1(c: Ctx) -> None:
     loop = selection_loop(c, u)
     it = loop.iter
     it_names = {n.id for n in ast.walk(it) if isinstance(n, ast.Name)}
+    # what a lookup can flow into: names bound to an expression that contains it (or a name it already flowed into), containers such an expression is added to
+    def flows_into_iter(node: ast.AST) -> bool:
+        tainted_nodes = {id(node)}
+        names: set[str] = set()
+
+        def mentions(e: ast.AST) -> bool:
+            return any(id(x) in tainted_nodes or (isinstance(x, ast.Name) and x.id in names) for x in ast.walk(e))
+
+        grew = True
+        while grew:
+            grew = False
+            for n2 in own_nodes_list(u):
+                if isinstance(n2, (ast.Assign, ast.AnnAssign, ast.AugAssign)) and n2.value is not None and mentions(n2.value):
+                    for t in (n2.targets if isinstance(n2, ast.Assign) else [n2.target]):
+                        for x in ast.walk(t):
+                            if isinstance(x, ast.Name) and x.id not in names:
+                                names.add(x.id)
+                                grew = True
+                elif isinstance(n2, ast.Call) and isinstance(n2.func, ast.Attribute) and n2.func.attr in ('extend', 'append', 'update', 'add', 'insert') and isinstance(n2.func.value, ast.Name) \
+                        and any(mentions(a_) for a_ in n2.args) and n2.func.value.id not in names:
+                    names.add(n2.func.value.id)
+                    grew = True
+                elif isinstance(n2, ast.For) and mentions(n2.iter) and n2 is not loop:
+                    for x in ast.walk(n2.target):
+                        if isinstance(x, ast.Name) and x.id not in names:
+                            names.add(x.id)
+                            grew = True
+        return mentions(it)
+
     flow_by_key: dict[str, list] = {}
     for node, k in lookups:
         st = q.stmt_of(node)
@@ -119,6 +149,7 @@ def c01_1(c: Ctx) -> None:
                         flows = True
                 if locs & it_names:
                     flows = True
+        flows = flows or flows_into_iter(node)
         flow_by_key.setdefault(k, []).append((node, flows))
     for k, lst in flow_by_key.items():
         # the same lookup may be written out more than once (a truth test for a fast path, then the use): one of them must feed the loop
@@ -159,7 +190,10 @@ def check_lookup_not_memoised(c: Ctx, u: Unit, lookups) -> None:
     self_ = u.params()[0]
     state_writes = [w for w in c.cg.writes.get(u.key, []) if w.base is not None and U(w.base).split('.')[0] == self_ and not isinstance(w.base, ast.Name) is False or (w.base is not None and U(w.base) == self_)]
     state_writes = [w for w in c.cg.writes.get(u.key, []) if w.base is not None and (U(w.base) == self_ or U(w.base).startswith(self_ + '.'))]
-    for w in state_writes:
+    memos = set(getattr(c.prog, 'memos', {}) or {})
+    for w in [w for w in state_writes if w.attr in memos]:
+        c.ok(where(u, w.node), f'{U(w.node)[:50]}: a store into the new memo {w.attr} (its reads are analysed as misses; C01.13 decides whether it is kept coherent)')
+    for w in [w for w in state_writes if w.attr not in memos]:
         c.fail(u, f'_get_applicable_handlers writes bus state: {U(w.node)[:70]}', 'the applicable-handler lookup is memoised on the bus: handlers registered (or removed) after the first event of a type are not seen for later events of that type', node=w.node)
     from sa.cfg import search
 
@@ -337,6 +371,27 @@ def c01_2(c: Ctx) -> None:
         if good:
             bus_arg = kcall.args[1] if len(kcall.args) >= 2 else q.kw(kcall, 'eventbus')  # type: ignore[union-attr]
             good = U(bus_arg) == u.params()[0]
+        if not good and isinstance(keyexpr, ast.Name) and isinstance(loop, (ast.For,)) and isinstance(loop.target, ast.Tuple) and len(loop.target.elts) == 2 \
+                and U(loop.target.elts[0]) == keyexpr.id and U(s.value) == U(loop.target.elts[1]):
+            # the loop runs over (id, handler) pairs prepared beforehand: every pair must be (get_handler_id(h, self), h)
+            src = loop.iter
+            seen_ = set()
+            while isinstance(src, ast.Name) and src.id not in seen_:
+                seen_.add(src.id)
+                ds = [n for n in own_nodes_list(u) if isinstance(n, (ast.Assign, ast.AnnAssign)) and n.value is not None and any(isinstance(t, ast.Name) and t.id == src.id for t in (n.targets if isinstance(n, ast.Assign) else [n.target]))]
+                ds = [d_ for d_ in ds if not (isinstance(d_.value, ast.Constant) and d_.value.value is None)]
+                if len(ds) != 1:
+                    break
+                src = ds[0].value
+            if isinstance(src, ast.Call) and isinstance(src.func, ast.Name) and src.func.id in ('tuple', 'list') and len(src.args) == 1:
+                src = src.args[0]
+            if isinstance(src, (ast.GeneratorExp, ast.ListComp)) and len(src.generators) == 1 and not src.generators[0].ifs and isinstance(src.elt, ast.Tuple) and len(src.elt.elts) == 2 \
+                    and isinstance(src.generators[0].target, ast.Name):
+                hv_ = src.generators[0].target.id
+                k_, v_ = src.elt.elts
+                if isinstance(k_, ast.Call) and call_name(k_) == 'get_handler_id' and len(k_.args) >= 2 and U(k_.args[0]) == hv_ and U(k_.args[1]) == u.params()[0] and U(v_) == hv_:
+                    good = True
+                    kcall = k_
         if good:
             c.ok(where(u, s), f'handlers are keyed by {U(kcall)} (bus-qualified id)')
         else:
@@ -798,7 +853,7 @@ def c01_5(c: Ctx) -> None:
         results = {} if status is None else {'HID': Rec(status=status, completed_at=done, started_at=None if status == 'pending' else 'T0')}
         ai = AbsInt(calls=overrides)
         env = {ps[0]: Obj('EventBus', 'b'), ps[1]: Rec(event_results=results, event_path=['b'], event_id='E', event_parent_id=None), ps[2]: Obj('function', 'h')}
-        ai.run(w.node.body, env)
+        ai.run(w.node.body, bind_defaults(w, env))
         rets = ai.returns
         if ai.undecided:
             raise AnalysisError(f'_would_create_loop: test `{U(ai.undecided[0])[:70]}` is undecided for existing result state {status} (both branches would have to be followed: no verdict)')
@@ -1118,6 +1173,107 @@ def c01_12(c: Ctx) -> None:
     from .c10 import c10_2
 
     c10_2(c)
+
+
+def check_memo_coherence(c: Ctx) -> None:
+    """New memo attributes (sa/memo.py) are analysed through their miss path.  That is sound only if a hit returns what the computation would return now: every writer of the
+    state the computation reads must invalidate the memo.  The computations at stake read the handler registry; its writers are on() (append), expect() (removal of its temporary
+    handler) and stop(clear=True).  A wildcard registration changes the answer for EVERY event type, so an invalidation by key must be total when the key is '*'."""
+    from sa.cfg import search
+
+    memos = getattr(c.prog, 'memos', {}) or {}
+    if not memos:
+        c.ok('bubus/*.py', 'no new memo attribute: every lookup is computed when it is needed')
+        return
+    writers = [w for w in c.cg.all_writes('handlers') if w.unit.module in (SVC, MOD) and not (w.unit.name == '__init__' and w.how == 'assign')]
+    for a, info in sorted(memos.items()):
+        fillers = {id(x) for x in info['stores']}
+        fill_units = [uu for uu in c.prog.units.values() if any(id(x) in fillers for x in own_nodes_list(uu))]
+        reads_handlers = any(isinstance(x, ast.Attribute) and x.attr == 'handlers' for uu in fill_units for x in own_nodes_list(uu))
+        if not reads_handlers:
+            c.fail(fill_units[0] if fill_units else 'bubus', f'memo {a}: the memoised computation does not read the handler registry', f'the analysis cannot name what the memo {a} depends on: whether it is '
+                   'invalidated when that changes is not decided (its reads are analysed as misses)')
+            continue
+        # a version stamp: an attribute that is stored with every entry and compared when the entry is looked up; bumping it invalidates everything
+        stamp = None
+        for st_ in info['stores']:
+            for x in ast.walk(st_):
+                if isinstance(x, ast.Attribute) and isinstance(x.value, ast.Name) and x.value.id == 'self' and x.attr not in memos and x.attr != 'handlers' \
+                        and any(f'self.{x.attr}' in t for t in info.get('hit_tests', [])):
+                    stamp = x.attr
+
+        def kind(n) -> tuple[str, str | None] | None:
+            """('total', None) / ('keyed', key text) when CFG node n invalidates the memo."""
+            if n.ast is None or n.kind != 'stmt':
+                return None
+            for x in ast.walk(n.ast):
+                if isinstance(x, ast.Call) and isinstance(x.func, ast.Attribute) and isinstance(x.func.value, ast.Attribute) and x.func.value.attr == a:
+                    if x.func.attr == 'clear':
+                        return ('total', None)
+                    if x.func.attr in ('pop', 'discard', 'remove') and x.args:
+                        return ('keyed', U(x.args[0]))
+                if isinstance(x, ast.Delete):
+                    for t in x.targets:
+                        if isinstance(t, ast.Subscript) and isinstance(t.value, ast.Attribute) and t.value.attr == a:
+                            return ('keyed', U(t.slice))
+                if isinstance(x, ast.Assign) and any(isinstance(t, ast.Attribute) and t.attr == a for t in x.targets) and U(x.value) in ('{}', 'set()', 'dict()'):
+                    return ('total', None)
+                if stamp and isinstance(x, ast.AugAssign) and isinstance(x.target, ast.Attribute) and x.target.attr == stamp and isinstance(x.op, ast.Add):
+                    return ('total', None)
+            return None
+
+        # a memo of *negative* answers ("nothing is registered for k": every store sits on the else-branch of a test that is a disjunction of registry lookups) can only be
+        # made wrong by an addition to the registry; removing handlers leaves it true
+        def negative_store(st_) -> bool:
+            gi = q.enclosing(st_, (ast.If,))
+            while gi is not None and not q.lexically_in(st_, gi, 'orelse'):
+                gi = q.enclosing(gi, (ast.If,))
+            if gi is None:
+                return False
+            dis = gi.test.values if isinstance(gi.test, ast.BoolOp) and isinstance(gi.test.op, ast.Or) else [gi.test]
+            return all(isinstance(x, (ast.Call, ast.Subscript)) and '.handlers' in U(x) for x in dis)
+
+        negative = bool(info['stores']) and all(negative_store(st_) for st_ in info['stores'])
+        for w in writers:
+            if negative and w.how in ('remove', 'clear', 'pop', 'del', 'remove@item', 'pop@item', 'del@item', 'clear@item'):
+                c.ok(where(w.unit, w.node), f'memo {a} records only "nothing registered": removing handlers ({w.unit.name}) cannot make it wrong')
+                continue
+            g = c.cfg(w.unit)
+            wnodes = g.nodes_of(q.stmt_of(w.node))
+            keys = {k[1] for n in g.live_nodes() if (k := kind(n)) and k[0] == 'keyed'}
+            bad = None
+            cases = [('*', None)] if not keys else [(f"{k} == '*'", k) for k in sorted(keys)] + [('*', None)]
+            for wn in wnodes:
+                for star_case in (True, False):
+                    # wildcard case: only a total invalidation counts; otherwise a keyed one does too
+                    def inval(n, star_case=star_case):
+                        k = kind(n)
+                        return k is not None and (k[0] == 'total' or not star_case)
+
+                    atoms = {f"{k} == '*'" for k in keys} | {f"'*' == {k}" for k in keys}
+                    fx = Facts(lambda t: t in atoms or any(t == eq_atom(k, "'*'") for k in keys), cg=c.cg, unit=w.unit)
+                    env0 = {eq_atom(k, "'*'"): ('T' if star_case else 'F') for k in keys}
+                    ek = lambda n, e, d: None if e.is_exc else fx.edge_ok(n, e, d)  # noqa: E731
+                    before = search([(g.entry, tuple(sorted(env0.items())))], is_target=lambda n, d: n is wn, is_barrier=lambda n, d: inval(n), edge_ok=ek, transfer=fx.transfer)
+                    if before is None:
+                        continue  # every way to the write passes an invalidation (same synchronous stretch)
+                    # (the case is fixed at the write: the key may have been computed on the way there)
+                    at_write = {**dict(before[-1].env if before else ()), **env0}
+                    after = search([(wn, tuple(sorted(at_write.items())))], is_target=lambda n, d: n.kind == 'exit', is_barrier=lambda n, d: n is not wn and inval(n), edge_ok=ek, transfer=fx.transfer)
+                    if after is not None:
+                        bad = (star_case, before, after)
+            if bad is None:
+                c.ok(where(w.unit, w.node), f'memo {a}: `{U(w.node)[:50]}` in {w.unit.name} is accompanied by an invalidation on every path' + (f' (version stamp {stamp})' if stamp else ''))
+            else:
+                what = "a registration under '*' (which changes the answer for every event type) invalidates only one key" if bad[0] and keys else 'the memo is not invalidated'
+                c.fail(w.unit, f'memo {a} survives `{U(w.node)[:50]}` in {w.unit.name}', f'{what}: later events are delivered according to a stale answer (a handler registered in the meantime is skipped, a '
+                       'removed one is still called, or an event runs without the lock although somebody listens now)', node=w.node, witness=c.path(bad[2][0].node if bad[2] else wnodes[0], bad[2]))
+
+
+@ob('C01.13', 'COHERENCE', 'a memo in front of the handler lookup (a new attribute that keeps answers computed from the handler registry) is invalidated by every writer of the registry — on(), '
+    "expect()'s removal of its temporary handler, stop(clear=True) — totally when the key is '*'; the checks analyse memoised lookups through their miss path, which this makes sound")
+def c01_13(c: Ctx) -> None:
+    check_memo_coherence(c)
 
 
 from .common import await_coro  # noqa: E402
